@@ -10,6 +10,7 @@ PROPS = {
     "C03": ("c03", "other"),
     "C04": ("c04", "other"),
     "C05": ("c05", "other"),
+    "C06": ("c06", "other"),
     "C07": ("c07", "other"),
     "C19": ("c19", "other"),
     "C12": ("c12_c13", "translation_validation"),
